@@ -231,9 +231,13 @@ func (r *fileRewriter) rewrite() {
 				r.insert(v.Body.Lbrace+1, fmt.Sprintf(" mcrt.Yield(%q); ", r.posLabel(v.Pos())))
 			}
 		case *ast.ForStmt:
+			r.usesMC = true
 			if r.opts.yield {
-				r.usesMC = true
 				r.insert(v.Body.Lbrace+1, fmt.Sprintf(" mcrt.Yield(%q); ", r.posLabel(v.Pos())))
+			} else {
+				// make waiting visible: a loop that goes round without ever reaching a
+				// scheduling point is counted, and reported as a livelock at a fixed count
+				r.insert(v.Body.Lbrace+1, fmt.Sprintf(" mcrt.Spin(%q); ", r.posLabel(v.Pos())))
 			}
 		case *ast.ImportSpec:
 			if v.Path.Value == `"sync"` {
